@@ -1105,6 +1105,21 @@ fn c18() {
             q.public_inputs[k] = F::from_canonical_u64((a[k] + 1) % P);
             variants.push((format!("address-limb{k}+1"), q));
         }
+        // byte by byte: the proof's address differs from `a` in exactly one byte (lowest and highest bit of every byte
+        // that can be flipped without leaving the field) - a comparison that skips bytes or limbs must not accept it
+        if i == 0 {
+            for byte in 0..32usize {
+                for bit in [0usize, 7] {
+                    let k = byte / 8;
+                    let v = a[k] ^ (1u64 << (8 * (byte % 8) + bit));
+                    if v < P {
+                        let mut q = p.clone();
+                        q.public_inputs[k] = F::from_canonical_u64(v);
+                        variants.push((format!("address-byte{byte}-bit{bit}-flipped"), q));
+                    }
+                }
+            }
+        }
         for (j, b) in ctx_addrs.iter().enumerate() {
             if b != a {
                 let mut q = p.clone();
